@@ -825,8 +825,10 @@ fn float_lit(g: &mut G, kind: u8, stat: bool) -> Lit {
 fn ratio_lit(g: &mut G, stat: bool) -> Lit {
     let mut l = base_lit(if stat { "static_rbig" } else { "rbig" });
     let relaxed = g.chance(40);
-    let a = mag(g, if g.chance(70) { 200 } else { 2600 });
-    let mut b = mag(g, if g.chance(70) { 200 } else { 2600 });
+    let abits = if g.chance(70) { 200 } else { 2600 };
+    let a = mag(g, abits);
+    let bbits = if g.chance(70) { 200 } else { 2600 };
+    let mut b = mag(g, bbits);
     if b.is_zero() {
         b = BigUint::one();
     }
@@ -1054,7 +1056,7 @@ fn negative(seed: u64) -> Lit {
         }
         6 => {
             l.mac = g.pick(&int_macs).to_string();
-            l.tokens = g.pick(&["12 base", "base 10", "base", "12 base base 10", "12 base 10 10", "12 bas 10", "12 base ten"]).to_string();
+            l.tokens = g.pick(&["12 base", "base 10", "base", "12 base 10 base 10", "12 base 10 10", "12 bas 10", "12 base ten"]).to_string();
             class = "negative: malformed base clause";
         }
         7 => {
@@ -1114,7 +1116,7 @@ fn negative(seed: u64) -> Lit {
         14 => {
             let v = small(&mut g);
             l.mac = g.pick(&["rbig", "static_rbig"]).to_string();
-            l.tokens = g.pick(&[format!("{v}/2/3"), format!("/{v}"), format!("~"), format!("{v}/~3"), format!("{v}~/3"), format!("~~{v}/3"), format!("{v}/3 base 10/5"), format!("{v} 3")]);
+            l.tokens = g.pick(&[format!("{v}/2/3"), format!("/{v}"), format!("~"), format!("{v}/~3"), format!("{v}~/3"), format!("{v}/3 base 10/5"), format!("{v} 3")]);
             class = "negative: malformed fraction";
         }
         15 => {
@@ -1830,4 +1832,234 @@ fn judge(l: &Lit, o: &Obs) -> V {
             }
         }
     }
+}
+
+// ------------------------------------------------------------------------------------------------
+// known findings: predicates over the token structure, as narrow as the root cause
+// ------------------------------------------------------------------------------------------------
+
+fn known_id(l: &Lit, o: &Obs) -> Option<&'static str> {
+    if o.comp != Comp::Ok || l.expect != FAIL {
+        return None;
+    }
+    let toks = lex(&l.tokens).ok()?;
+    let is_sign = |t: &Tok| matches!(t, Tok::Punct('+') | Tok::Punct('-'));
+    let is_val = |t: &Tok| matches!(t, Tok::Num(_) | Tok::Ident(_));
+    let m = l.mac.trim_start_matches("static_");
+    // every value-producing observation of such a literal is covered, a crash or a layout defect is not
+    if o.lines.iter().any(|s| s.starts_with("PANIC") || s.starts_with("ABORT") || s.contains("storage layout")) || !o.done {
+        return None;
+    }
+    let mut body: Vec<&Tok> = toks.iter().filter(|t| !matches!(t, Tok::Punct('~'))).collect();
+    // a well-formed trailing `base N` clause is not part of the pattern
+    if body.len() >= 3 && matches!(body[body.len() - 2], Tok::Ident(s) if s == "base") && matches!(body[body.len() - 1], Tok::Num(_)) {
+        body.truncate(body.len() - 2);
+    }
+    if matches!(m, "ibig" | "rbig" | "fbig") && body.len() >= 3 && is_sign(body[0]) && is_sign(body[1]) && is_val(body[2]) && body[3..].iter().all(|t| !is_sign(t)) {
+        // parse_integer_with_error / parse_ratio_with_error accept any number of sign tokens in
+        // front of the value; parse_binary_float strips one sign and hands the rest to from_str
+        return Some("C20/repeated-sign-tokens");
+    }
+    if m == "rbig" {
+        let vals = body.iter().filter(|t| is_val(t)).count();
+        let bars = body.iter().filter(|t| matches!(t, Tok::Punct('/'))).count();
+        let signs_ok = body.iter().filter(|t| is_sign(t)).count() <= 1;
+        // `a/`, `/a` (nothing on one side of the bar) and `a b` (no bar): den_marked is never consulted
+        if signs_ok && ((vals == 1 && bars == 1) || (vals == 2 && bars == 0 && is_val(body[body.len() - 1]) && is_val(body[body.len() - 2]))) {
+            return Some("C20/rbig-fraction-bar-not-checked");
+        }
+    }
+    if matches!(m, "fbig" | "dbig") && body.len() == 2 && matches!((body[0], body[1]), (Tok::Num(_), Tok::Num(_))) {
+        // parse_*_float concatenate the token texts: `1.5 123` is read as 1.5123
+        return Some("C20/float-macros-join-separate-literals");
+    }
+    None
+}
+
+// ------------------------------------------------------------------------------------------------
+
+static INTERN: Mutex<Option<HashMap<String, &'static str>>> = Mutex::new(None);
+fn intern(s: &str) -> &'static str {
+    let mut g = INTERN.lock().unwrap();
+    let m = g.get_or_insert_with(HashMap::new);
+    if let Some(v) = m.get(s) {
+        return v;
+    }
+    let v: &'static str = Box::leak(s.to_string().into_boxed_str());
+    m.insert(s.to_string(), v);
+    v
+}
+
+static ONE: Mutex<()> = Mutex::new(());
+
+/// proptest sub / replay: one literal, its own crate
+fn judge_one(c: &OneCase, ctx: &Ctx) -> Out {
+    let mut out = Out::new();
+    let l = &c.lit;
+    for lab in &l.labels {
+        out.label(intern(lab));
+    }
+    out.label(intern(&format!("macro: {}!", l.mac)));
+    out.label(if c.bits32 { "word size: 32 (force_bits)" } else { "word size: 64" });
+    out.nontrivial(l.nontrivial);
+    let o = {
+        let _g = ONE.lock().unwrap_or_else(|e| e.into_inner());
+        let (mut obs, _, _) = run_single_crate(if c.bits32 { "one32" } else { "one" }, std::slice::from_ref(l), c.bits32);
+        obs.remove(0)
+    };
+    match judge(l, &o) {
+        V::Pass => {}
+        V::Incon(w) => out.inconclusive(w),
+        V::Viol(sig) => match known_id(l, &o) {
+            Some(id) => ctx.known_or_fail(&mut out, id, || sig.clone()),
+            None => out.fail(sig),
+        },
+    }
+    out
+}
+
+#[derive(Debug, Clone, Hash, Serialize, Deserialize)]
+struct OneCase {
+    lit: Lit,
+    #[serde(default)]
+    bits32: bool,
+}
+
+#[derive(Default)]
+struct Agg {
+    evals: u64,
+    labels: BTreeMap<&'static str, u64>,
+    distinct: BTreeSet<String>,
+    samples: Vec<Value>,
+    violations: Vec<(String, Value)>,
+    known: BTreeMap<String, u64>,
+    incon: Vec<String>,
+    build_s: f64,
+    run_s: f64,
+    per_macro: BTreeMap<String, u64>,
+    rejected_may: u64,
+}
+
+fn account(agg: &mut Agg, ck: &Check, lits: &[Lit], obs: &[Obs], bits32: bool) {
+    for (l, o) in lits.iter().zip(obs) {
+        agg.evals += 1;
+        *agg.per_macro.entry(format!("{}!", l.mac)).or_default() += 1;
+        for lab in &l.labels {
+            *agg.labels.entry(intern(lab)).or_default() += 1;
+        }
+        *agg.labels.entry(intern(&format!("macro: {}!", l.mac))).or_default() += 1;
+        let outcome = match (&o.comp, l.expect) {
+            (Comp::Ok, FAIL) => "outcome: literal outside the grammar compiled",
+            (Comp::Ok, _) => "outcome: compiled and evaluated",
+            (Comp::Lexer(_), FAIL) => "outcome: rejected by rustc's lexer",
+            (Comp::Macro(_), FAIL) => "outcome: rejected by the macro",
+            (Comp::Expansion(_), FAIL) => "outcome: rejected when compiling the expansion",
+            (Comp::Macro(_), MAY) => {
+                agg.rejected_may += 1;
+                "outcome: undocumented form rejected by the macro"
+            }
+            _ => "outcome: documented form did not compile",
+        };
+        *agg.labels.entry(outcome).or_default() += 1;
+        if l.nontrivial {
+            agg.distinct.insert(format!("{}!({})", l.mac, l.tokens));
+            if agg.samples.len() < 3 && l.tokens.len() < 200 && agg.evals % 7 == 3 {
+                agg.samples.push(json!({"macro": l.mac, "tokens": l.tokens, "text": l.text, "radix": l.radix, "want": l.want, "prec": l.prec}));
+            }
+        }
+        let case = serde_json::to_value(OneCase { lit: l.clone(), bits32 }).unwrap();
+        match judge(l, o) {
+            V::Pass => {}
+            V::Incon(w) => agg.incon.push(w),
+            V::Viol(sig) => match known_id(l, o) {
+                Some(id) if ck.known().active(id) => *agg.known.entry(id.to_string()).or_default() += 1,
+                Some(id) => agg.violations.push((format!("[{id}] {sig}"), case)),
+                None => agg.violations.push((sig, case)),
+            },
+        }
+    }
+}
+
+fn report(ck: &mut Check, name: &str, agg: Agg, engine: &str) {
+    for w in agg.incon.iter().take(5) {
+        println!("INCONCLUSIVE: {}", truncate(w, 400));
+    }
+    for (sig, _) in agg.violations.iter().skip(1).take(60) {
+        println!("  further violation in {name}: {}", truncate(sig, 400));
+    }
+    let extra = json!({
+        "engine": engine,
+        "per_macro": agg.per_macro,
+        "build_s": (agg.build_s * 10.0).round() / 10.0,
+        "run_s": (agg.run_s * 10.0).round() / 10.0,
+        "known_findings_hit": agg.known,
+        "inconclusive": agg.incon.len(),
+        "inconclusive_samples": agg.incon.iter().take(3).collect::<Vec<_>>(),
+        "violations_total": agg.violations.len(),
+        "undocumented_forms_rejected": agg.rejected_may,
+    });
+    let first = agg.violations.into_iter().next();
+    ck.external(name, agg.evals, agg.distinct.len() as u64, agg.labels, agg.samples, first, Some(extra));
+}
+
+fn main() {
+    let mut ck = Check::new(
+        "C20",
+        "generated programs: literal token texts drawn from the documented grammar of ubig!/ibig!/fbig!/dbig!/rbig! and the static_ variants (decimal, 0b/0o/0x, `base N` for N in 2..=36 with the identifier / suffix / leading-underscore token shapes, signs, underscores, leading and trailing zeros, binary and hexadecimal floats with B/p exponents, decimal floats with e exponents, fractions with common factors, ~), magnitudes 0, 1, 2^32±1, 2^64±1, 2^128±1, 2^192, byte and word boundaries, 40 words; each literal is compiled against the working tree (expression, const item, static item), run, and compared through raw words with the run-time parse of the same text, with the generator's own value, with the written digit count (precision) and with the documented storage layout; literals outside the grammar are separate [[bin]] targets that must not compile. Non-trivial: value needing more than 32 bits, or a float / ratio literal, or a literal outside the grammar; distinct by macro + token text.",
+    );
+    ck.assume("rustc's lexer decides what reaches a macro: the generator only emits token texts its model of rustc_lexer accepts; a positive literal rustc itself rejects is reported as inconclusive (generator), never as a violation");
+    ck.assume("the run-time parsers (judged by C07/C08) are the primary reference; the generator's own value (num-bigint) is the second");
+    ck.assume("cargo/rustc build the generated crates offline against DV_REPO (default /repo) with --cfg dashu_verif; opt-level 0, debug assertions on, also in the proc-macro");
+    let th = ck.thorough();
+    let seed = ck.seed;
+
+    // one literal per crate: the replay path, and a small sample on every run
+    ck.sub(
+        "literals",
+        (16, 48),
+        || (lit_strategy(25), 0u8..8).prop_map(|(lit, k)| OneCase { lit, bits32: k == 0 }).no_shrink(),
+        judge_one,
+    );
+
+    if !ck.is_replay() {
+        let scale = ck.scale;
+        let n_batches = (((if th { 80.0 } else { 8.0 }) * scale).ceil() as usize).max(1);
+        let per_batch = 400usize;
+        let n32 = (((if th { 16.0 } else { 2.0 }) * scale).ceil() as usize).max(1);
+        let per32 = 400;
+        let n_neg = (((if th { 1000.0 } else { 100.0 }) * scale).ceil() as usize).max(8);
+
+        if ck.wants("literals@batch") {
+            let mut agg = Agg::default();
+            for b in 0..n_batches {
+                let lits = sample_strategy(&lit_strategy(0), seed_mix(seed_mix(seed, 0xC20), b as u64), per_batch);
+                let (obs, bs, rs) = run_single_crate("pos", &lits, false);
+                agg.build_s += bs;
+                agg.run_s += rs;
+                account(&mut agg, &ck, &lits, &obs, false);
+            }
+            report(&mut ck, "literals@batch", agg, "generated crate <macrogen>/pos, one function per literal, cargo build + run, 64-bit words");
+        }
+        if ck.wants("literals@batch32") {
+            let mut agg = Agg::default();
+            for b in 0..n32 {
+                let lits = sample_strategy(&lit_strategy(0), seed_mix(seed_mix(seed, 0xC2032), b as u64), per32);
+                let (obs, bs, rs) = run_single_crate("pos32", &lits, true);
+                agg.build_s += bs;
+                agg.run_s += rs;
+                account(&mut agg, &ck, &lits, &obs, true);
+            }
+            report(&mut ck, "literals@batch32", agg, "the same with RUSTFLAGS --cfg force_bits=\"32\" (32-bit words, also inside the proc-macro)");
+        }
+        if ck.wants("literals@negative") {
+            let mut agg = Agg::default();
+            let lits = sample_strategy(&lit_strategy(100), seed_mix(seed, 0xC20E), n_neg);
+            let (obs, bs, rs) = run_bins_crate("neg", &lits);
+            agg.build_s += bs;
+            agg.run_s += rs;
+            account(&mut agg, &ck, &lits, &obs, false);
+            report(&mut ck, "literals@negative", agg, "generated crate <macrogen>/neg, one [[bin]] per literal, cargo check --bins --keep-going; what compiles is built and run");
+        }
+    }
+    ck.finish();
 }
